@@ -49,7 +49,7 @@ def ValidPartD (d : PartD) : Prop :=
 def ValidInstrD (d : InstrD) : Prop :=
   (∀ p ∈ d.parts, ValidPartD p) ∧ ((d.parts.map expectPart).flatMap marshalPart).length + 2 < 65536
 def ValidSubListD (d : SubListD) : Prop :=
-  100 ≤ d.mcc ∧ d.mcc ≤ 999 ∧ 10 ≤ d.mnc ∧ d.mnc ≤ 999 ∧ (∀ i ∈ d.instrs, ValidInstrD i) ∧
+  100 ≤ d.mcc ∧ d.mcc ≤ 999 ∧ 9 ≤ d.mnc ∧ d.mnc ≤ 999 ∧ (∀ i ∈ d.instrs, ValidInstrD i) ∧
     3 + ((d.instrs.map expectInstr).flatMap marshalInstr).length < 65536
 
 theorem wf_buildPart (d : PartD) (h : ValidPartD d) : WFPart (buildPart d) := by
@@ -124,7 +124,7 @@ def expectSubResult (d : SubResultD) : SubResult :=
    d.results.map fun x => ⟨x.1, x.2, 0x6f⟩⟩
 
 def ValidSubResultD (d : SubResultD) : Prop :=
-  100 ≤ d.mcc ∧ d.mcc ≤ 999 ∧ 10 ≤ d.mnc ∧ d.mnc ≤ 999 ∧ 3 + 5 * d.results.length < 65536
+  100 ≤ d.mcc ∧ d.mcc ≤ 999 ∧ 9 ≤ d.mnc ∧ d.mnc ≤ 999 ∧ 3 + 5 * d.results.length < 65536
 
 theorem buildRes_fields (x : UInt16 × UInt16) : buildRes x = ⟨x.1, x.2, 0x6f⟩ := rfl
 
